@@ -18,6 +18,8 @@ CHECKS = {
  'C06': dict(ref='§4 C06', note=BASE + 'read_target, target_digest_and_filename, fetch_target, fetch_sha256, fetch_max_size, DigestAdapter::poll_next and the max_size_adapter closure run from MIR and are drained as a stream of <=2 (quick) / <=3 (thorough) chunks with an optional endless tail; Targets::find_target is an oracle here (C07). A native sweep (696 cases: bit flips, truncations, extensions, endless, substitution, transport errors; top-level and delegated; both consistent settings) validates the stream models against the real library.'),
  'C09': dict(ref='§4 C09', note=BASE + 'Per-file bounds on all paths (not only successful ones) for timestamp/snapshot/targets/root/delegated files with <=2 chunks; delegation shapes flat / nested / self- and mutually delegating with unwinding depth 6; byte counts that wrap u64 are outside the claim. Native size recipes (exact size, one byte more, endless) run on every check.'),
  'C11': dict(ref='§4 C11', note='Trusted base: serde_json drives the Formatter protocol as documented; CompactFormatter writes its fixed bytes; BTreeMap iterates in byte order; str::nfc is the identity on ASCII (symbolic part is ASCII: printable, quote, backslash, controls; keys of 1..2 bytes, 2 members quick / 3 thorough, one nested object). NFC and multi-byte behaviour is validated natively on all key sets of size <=3 over a 13-symbol alphabet plus an NFC corpus, against a Python reference encoder.'),
+ 'C13': dict(ref='§4 C13', note='Trusted base: SHA-256 and canonical serialisation of a key are functions of the key content (2-byte digest stand-in, byte- and length-wise comparison); serde drives visit_map in document order; HashMap::insert returns the previous value. deserialize_keys::visit_map, validate_and_insert_entry, Key::key_id and Decoded::eq run from MIR over tables of 1..2 (3 thorough) entries with identifiers shorter / equal / longer than the digest; the routing of Root.keys and Delegations.keys through deserialize_keys is read off the derive-generated wrappers in the dump. Not claimed from MIR: PEM/SPKI re-encoding stability, hex-case (covered natively: 1152 cases over the 36 fixture and generated keys).'),
+ 'C18': dict(ref='§4 C18', note='Trusted base: reqwest (error_for_status, status, is_timeout, is_request, headers, bytes_stream) and tokio sleep as documented; a server announces Accept-Ranges only if it honours Range; a body that ends without error is the complete remaining resource; back-off durations do not influence control flow. RetryStream::{poll_next,poll_streaming,poll_executing,poll_new_request,may_retry,poll_err}, RetryState::increment, parse_response_code, both From impls and build_request run from MIR against a symbolic response script: tries 1..2 with tries+1 responses and 1 body chunk + break point (quick), tries 1..3 with tries+2 responses and 2 chunks (thorough); resource <= 256 KiB. Counterexamples are replayed against a loopback HTTP server.'),
  'C14': dict(ref='§4 C14', note=BASE + 'Claimed for the case where the previously trusted root is the shipped one (the general case falls under the recorded C03 root-persistence findings). Key lists of length 1 and 2 on either side; end-to-end 2-cycle history with one key per role; a native menu of list shapes (extended, truncated, re-ordered, replaced, unchanged) validates the list model on every run.'),
  'C15': dict(ref='§4 C15', note=BASE + 'File-system model: tokio::fs::write = open(O_TRUNC) then write; rename atomic; a created/truncated, incompletely written file does not parse; every datastore call may fail (ENOSPC/EIO) or be the last one before the process dies. History: clean cycle, faulted cycle, clean cycle; one root hop; temporary files the code creates become part of the tracked datastore state.'),
  'C05': dict(ref='§4 C05', note=BASE + 'Sha-256 is a function of the sequence of accepted chunks; <=1 (quick) / <=2 (thorough) chunks per file; delegation trees of depth <=2 (quick) / <=3 (thorough).'),
